@@ -13,7 +13,7 @@ open Relation Metrics
 theorem output_not_key {op : Op} (hwf : OpWF op) (hp : PlainOp op) : "Output" ∉ op.indexKeys := by
   rw [mem_indexKeys_iff]
   rintro (h | h | h)
-  · rcases hp.labels _ h with h | h <;> exact absurd h (by decide)
+  · exact hp.labels _ h (by decide)
   · have : op.kind = .output := by
       cases hk : op.kind <;> rw [hk] at h <;> first | rfl | exact absurd h (by decide)
     exact hwf.not_output this
